@@ -359,8 +359,8 @@ func runFwCase(c fwCase, base string) (mis []fwMis, info map[string]any) {
 	}
 	t0 := time.Now()
 	if want, ok := fwValue[curContent]; ok {
-		if !waitConverged(5 * time.Second) {
-			mis = append(mis, fwMis{"prop", fmt.Sprintf("final content %s (a=%d) but the view stayed at a=%d for 5 s after the last change", curContent, want, d.View().A)})
+		if !waitConverged(20 * time.Second) {
+			mis = append(mis, fwMis{"prop", fmt.Sprintf("final content %s (a=%d) but the view stayed at a=%d for 20 s after the last change", curContent, want, d.View().A)})
 		}
 		info["converge_us"] = time.Since(t0).Microseconds()
 	} else {
@@ -390,8 +390,8 @@ func runFwCase(c fwCase, base string) (mis []fwMis, info map[string]any) {
 	go func() { ws.WG.Wait(); close(done) }()
 	select {
 	case <-done:
-	case <-time.After(3 * time.Second):
-		mis = append(mis, fwMis{"prop", "the watcher goroutine did not exit within 3 s of the context being cancelled"})
+	case <-time.After(10 * time.Second):
+		mis = append(mis, fwMis{"prop", "the watcher goroutine did not exit within 10 s of the context being cancelled"})
 	}
 	dl := time.Now().Add(time.Second)
 	for inotifyFDs() > fd0 && time.Now().Before(dl) {
@@ -464,7 +464,7 @@ func runFwOverflow(c fwCase, base string) (mis []fwMis, info map[string]any) {
 	}
 	atomicWrite(path, fwContent["g1"])
 	close(gd.gate)
-	dl := time.Now().Add(8 * time.Second)
+	dl := time.Now().Add(20 * time.Second)
 	for time.Now().Before(dl) && d.View().A != 11 {
 		time.Sleep(time.Millisecond)
 	}
@@ -520,7 +520,7 @@ func fwMain(args []string) {
 		out.WriteByte('\n')
 		n++
 	}
-	leaked := waitNoDialsGoroutines(3 * time.Second)
+	leaked := waitNoDialsGoroutines(10 * time.Second)
 	b, _ := json.Marshal(map[string]any{"final": true, "cases": n, "leaked": len(leaked)})
 	out.Write(b)
 	out.WriteByte('\n')
